@@ -93,6 +93,21 @@ pub(super) fn validate_directory(maybe_path: Option<PathBuf>) -> io::Result<Path
     }
 }
 
+/// A file named in a config may leave its extension out. Only the extension of its kind (or `txt`) counts as one:
+/// the dot in `stage.1` is part of the name, so `stage.1` stands for `stage.1.rsca`, not for `stage.rsca`
+pub(super) fn set_default_extension(path: &mut PathBuf, extension: &str) {
+    match path.extension() {
+        Some(ext) if ext == extension => {},
+        Some(ext) if ext == "txt" => { path.set_extension(extension); },
+        _ => if let Some(name) = path.file_name() {
+            let mut name = name.to_os_string();
+            name.push(".");
+            name.push(extension);
+            path.set_file_name(name);
+        },
+    }
+}
+
 pub(super) fn validate(path: &Path, valid_extensions: &[&str]) -> io::Result<PathBuf> {
     match path.extension() {
         Some(ext) => if match_exts(ext, valid_extensions) {
